@@ -128,7 +128,8 @@ CheckAff(e) ==
                 /\ V("C16", e, ~o.ex \/ SameAff(o, Expected(s)), "compose(f, g) coefficients differ from (F G, F c_g + c_f)", sg)
                 /\ V("C16", e, ~o.ex \/ \A x \in M!AffGridD(s.g.n) : Scale(s.f.q * s.g.q, Apply(o, x, 1)) = Scale(o.q, Apply(s.f, Apply(s.g, x, 1), 1)),
                      "compose(f, g)(x) differs from f(g(x)) at a grid point", sg \o "/grid")
-           [] OTHER -> V("C16", e, ~o.ex \/ SameAff(o, Expected(s)), sg \o " does not compute what its documentation states", sg)
+           [] OTHER -> /\ V("C16", e, ~o.ex \/ SameAff(o, Expected(s)), sg \o " does not compute what its documentation states", sg)
+                       /\ V("C16", e, "alt" \notin DOMAIN o \/ SameAff(o.alt, Expected(s)), sg \o " depends on the memory layout of the matrix it is given", sg \o "/layout")
 
 \* ---------------------------------------------------------------- LP layer (C10)
 \* objective value of a logged point: c.w scaled by WQ
